@@ -38,6 +38,7 @@ type fdObj struct {
 	fds      []int
 	live     bool
 	conn     fdReader
+	pkt      sonic.PacketConn
 	lsn      sonic.Listener // listener objects: accepts re-armed from their own callback
 	inflight bool // a read is deferred to the poller: the object must be in the IO's registry
 }
@@ -106,6 +107,9 @@ func runFDs(c *Case) []string {
 				var owner any = o.conn
 				if o.lsn != nil {
 					owner = o.lsn
+				}
+				if o.pkt != nil {
+					owner = o.pkt
 				}
 				if a := ioc.VerifRegisteredAddr(fd); a == 0 || a != sonic.VerifSlotAddr(owner) {
 					return 0
@@ -188,7 +192,29 @@ func runFDs(c *Case) []string {
 			if err != nil {
 				return reg(a[0], err, nil, nil)
 			}
-			return reg(a[0], nil, []int{pc.RawFd()}, pc.Close)
+			r := reg(a[0], nil, []int{pc.RawFd()}, pc.Close)
+			objs[a[0]].pkt = pc
+			return r
+		case "pread":
+			// a datagram read deferred to the poller (nothing was sent to this socket)
+			if o := objs[a[0]]; o != nil && o.pkt != nil && o.live && !o.inflight {
+				o.pkt.AsyncReadFrom(make([]byte, 16), func(error, int, net.Addr) { o.inflight = false })
+				o.inflight = true
+			}
+			return fmt.Sprintf("open=%d intact=%d rooted=%d", delta(), intact(""), rooted(""))
+		case "pwrites":
+			// pwrites <id> <n>: n datagram writes, each started from the previous one's callback; past the dispatch limit the
+			// next one is deferred to the poller and completes in a later poll while the read above is still in flight
+			if o := objs[a[0]]; o != nil && o.pkt != nil && o.live {
+				var w func(k int)
+				w = func(k int) {
+					if k > 0 && o.live {
+						o.pkt.AsyncWriteTo([]byte{1}, busyUDP.LocalAddr(), func(error) { w(k - 1) })
+					}
+				}
+				w(atoi(a[1]))
+			}
+			return fmt.Sprintf("open=%d intact=%d rooted=%d", delta(), intact(""), rooted(""))
 		case "peer":
 			addr := "127.0.0.1:0"
 			if a[1] == "badaddr" {
